@@ -121,5 +121,26 @@ Proof.
 Qed.
 Print Assumptions C13_defined_partial.
 
+(* "in every other case a state is returned": an orbit that is not decaying is answered.  With the decay guards passed at the
+   requested time, eL^2 <= 4/25 and the osculating perigee a (1 - eL) at least 1.005 earth radii, no error exit of the
+   regenerated propagation is taken: the Kepler loop converges (P_Sgp4Newton) and the radius test rk >= 1 passes at the exit
+   (both reachable leaves; the converse of C13_decay_guards / C13_radius_guard) *)
+From PyOrb.proofs Require P_Sgp4SmallE P_Sgp4Answered.
+Theorem C13_healthy_is_answered : forall e0 i ra w m n b ts,
+  gen_init_outcome e0 i ra w m n b = InitMode NearNorm 1 ->
+  let El := E e0 i ra w m n b in let T := mkT false ts in let ec := ecl e0 i ra w m n b ts in
+  - (1 / 1000) <= e_unclamped El T -> eL2 El T ec <= 4 / 25 -> 1005 / 1000 <= a El T * (1 - sqrt (eL2 El T ec)) ->
+  exists j, (j <= 5)%nat /\ gen_nn1_prop_outcome e0 i ra w m n b ts = PropOk j.
+Proof. exact P_Sgp4Answered.answered_when_healthy. Qed.
+Print Assumptions C13_healthy_is_answered.
+
+Theorem C13_healthy_is_answered_small_e : forall e0 i ra w m n b ts,
+  gen_init_outcome e0 i ra w m n b = InitMode NearNorm 3 ->
+  let El := E e0 i ra w m n b in let T := mkT true ts in let ec := P_Sgp4SmallE.ecl3 e0 i ra w m n b ts in
+  - (1 / 1000) <= e_unclamped El T -> eL2 El T ec <= 4 / 25 -> 1005 / 1000 <= a El T * (1 - sqrt (eL2 El T ec)) ->
+  exists j, (j <= 5)%nat /\ gen_nn3_prop_outcome e0 i ra w m n b ts = PropOk j.
+Proof. exact P_Sgp4Answered.answered_when_healthy3. Qed.
+Print Assumptions C13_healthy_is_answered_small_e.
+
 Example C13_inhabited : elements_in_range (6703 / 10000000) (516416 / 10000) 0 0 0 (1572125391 / 100000000) 0 -> True.
 Proof. intros _. exact I. Qed.
